@@ -14,6 +14,7 @@ func init() {
 			{Name: "regproc", Pkg: "./pkg/regserver/regprocessor", Run: "^TestVerifC11Regproc$", Drivers: []string{"regproc"}, Exports: []string{"lib"}, TimeoutQ: 10 * time.Minute, TimeoutT: 40 * time.Minute},
 			{Name: "apireg", Pkg: "./pkg/regserver/apiregserver", Run: "^TestVerifC11API$", Drivers: []string{"apireg"}, Exports: []string{"regproc"}, TimeoutQ: 10 * time.Minute, TimeoutT: 40 * time.Minute},
 			{Name: "dnsreg", Pkg: "./pkg/regserver/dnsregserver", Run: "^TestVerifC11DNS$", Drivers: []string{"dnsreg"}, Exports: []string{"regproc", "responder"}, TimeoutQ: 10 * time.Minute, TimeoutT: 40 * time.Minute},
+			{Name: "app", Dir: "cmd/application", Pkg: ".", Run: "^TestVerifC11Handler$", Drivers: []string{"app"}, Exports: []string{"lib"}, TimeoutQ: 10 * time.Minute, TimeoutT: 60 * time.Minute},
 		},
 	})
 }
